@@ -45,15 +45,19 @@ CLAIMS = {
              "printed path of fd is the root's components followed only by normal components (no '..'), and the root's path did not "
              "change in between; invariant: the expected path never contains '', '.', '..' or '/'. Kernel backend: a result is the "
              "answer of openat2(root, .., RESOLVE_IN_ROOT|RESOLVE_NO_MAGICLINKS|..), at most 16 openat2 calls, EAGAIN never "
-             "surfaces (SafetyViolation after the 16th). Tie and oracle: attacker-interposition suite — for generated and hand-made "
+             "surfaces (SafetyViolation after the 16th). C02_under_attack (Proofs/Attack.lean): the emulated lookup run against an "
+             "attacker who rearranges the tree between ANY two system calls (the i-th call is answered by the world of moment i; "
+             "the worlds of different moments are unrelated and need not be well-formed; only the root directory itself stays put) "
+             "returns only descriptors of objects that the kernel's d_path placed below the root at some moment of the call. "
+             "Tie and oracle: attacker-interposition suite — for generated and hand-made "
              "trees/lookups with '..' and links, a mutation (move out of the root, replace by a link to a host dir/file, "
              "RENAME_EXCHANGE with a tree or host entry, move up) is performed on the real filesystem by the interposer before every "
              "system-call boundary of the lookup, permanently or undone at the next boundary; every schedule is replayed through the "
              "model and the identity of the returned object (or link body) must be an inode of the tree or one the attacker put inside.",
         note="Kernel facts the semantic conclusion rests on (DPathSound: the procfs magic-link prints where the open file is at the "
-             "instant of the read; RESOLVE_IN_ROOT confines the kernel's own walk) are exercised by the suite on the live kernel, not "
-             "proved. Schedules with more than one mutation (beyond flip-flop pairs) are covered by the theorems only.",
-        technique="Lean 4 proof (run inversion for all environments: every success is a checked descriptor) + deterministic attacker-interposition schedules",
+             "instant of the read — the readlinkat clause of World.answer; RESOLVE_IN_ROOT confines the kernel's own walk) are "
+             "part of the trusted kernel specification and exercised by the suite on the live kernel, not proved. Schedules with more than one mutation (beyond flip-flop pairs) are covered by the theorems only.",
+        technique="Lean 4 proof (run inversion for all environments: every success is a checked descriptor; refinement against a sequence of unrelated worlds, one per system call: the result was below the root at some moment) + deterministic attacker-interposition schedules",
         ref="DESIGN.md §8 C02"),
     "C04": dict(
         text="Lean theorems (Props/C04.lean): both backends compute World.resolveInRoot (C01), whose only backend-dependent "
